@@ -5,7 +5,9 @@ use serde_json::{Value, json};
 use std::collections::{BTreeMap, BTreeSet};
 use std::time::Instant;
 
-pub const VERIF_DIR: &str = "/verif";
+pub fn verif_dir() -> String {
+    std::env::var("VERIF_OUT").unwrap_or_else(|_| "/verif".to_string())
+}
 
 #[derive(Clone, Copy, PartialEq, Eq, Debug)]
 pub enum Tier {
@@ -54,7 +56,7 @@ pub struct Report {
 
 fn load_known(id: &str) -> BTreeMap<String, String> {
     let mut m = BTreeMap::new();
-    let path = format!("{}/KNOWN_FINDINGS.json", VERIF_DIR);
+    let path = format!("{}/KNOWN_FINDINGS.json", verif_dir());
     let Ok(text) = std::fs::read_to_string(&path) else { return m };
     let v: Value = match serde_json::from_str(&text) {
         Ok(v) => v,
@@ -166,7 +168,7 @@ impl Report {
         });
         let text = serde_json::to_string_pretty(&body).unwrap();
         let h = fnv(&text);
-        let dir = format!("{}/replays", VERIF_DIR);
+        let dir = format!("{}/replays", verif_dir());
         let _ = std::fs::create_dir_all(&dir);
         let path = format!("{}/{}-{:016x}.json", dir, self.id, h);
         if let Err(e) = std::fs::write(&path, &text) {
@@ -305,7 +307,7 @@ impl Report {
             "wall_s": wall,
             "violations": self.new_keys.len(),
         });
-        let dir = format!("{}/evidence", VERIF_DIR);
+        let dir = format!("{}/evidence", verif_dir());
         let _ = std::fs::create_dir_all(&dir);
         let path = format!("{}/{}.json", dir, self.id);
         let tmp = format!("{}.tmp", path);
